@@ -435,8 +435,10 @@ func runNext(ctx *core.Ctx, in c04Input) error {
 		tab.coqFor(t), coqZ(t), coqOpt(res.Obs))
 	switch {
 	case res.Hung:
-		// neither the model nor the oracle is evaluated: the model would spin as well
-		c.Coq = ""
+		// the model is asked whether it is stuck too (2: the recorded day-skip defect as
+		// modelled; 3: the model does return - never absorbed by a known finding)
+		c.Coq = fmt.Sprintf("check_next_hang_case %d %d %d %d %d %d %s %s", b.Sec, b.Min, b.Hour, b.Dom, b.Month, b.Dow,
+			tab.coqFor(t), coqZ(t))
 		c.Direct, c.Note = 2, fmt.Sprintf("Next did not return within %v (the specification demands a result or the zero time)", hangDeadline)
 		c.Observed = map[string]any{"next": "no return", "go_reference": res.Ref}
 		ctx.Sink.Count("next/result=hang")
